@@ -133,6 +133,11 @@ type verifC33SM struct{ RelayStateMachine }
 
 func (verifC33SM) GetProtocolMessage() chainlib.ProtocolMessage { return verifC33PM{} }
 
+type verifC33Metrics struct{}
+
+func (verifC33Metrics) SetRelayNodeErrorMetric(chainId string, apiInterface string, providerAddress string, method string) {
+}
+
 type verifC33Getter struct{}
 
 func (verifC33Getter) GetChainIdAndApiInterface() (string, string) { return "LAV1", "rest" }
@@ -154,7 +159,7 @@ func VerifC33Arrival() {
 	rp := &RelayProcessor{
 		selection: CrossValidation, crossValidationParams: &common.CrossValidationParams{AgreementThreshold: t, MaxParticipants: n + 1},
 		quorumMap: map[[32]byte]int{}, ResultsManager: rm, RelayStateMachine: verifC33SM{}, usedProviders: up,
-		chainIdAndApiInterfaceGetter: verifC33Getter{},
+		chainIdAndApiInterfaceGetter: verifC33Getter{}, metricsInf: verifC33Metrics{},
 	}
 	good := make([]bool, n)
 	data := make([]byte, n)
